@@ -6,7 +6,8 @@ Driver for C09 / C10-B.  Grammar: see harness/src/bin/c09.rs.
   drv_c09 model  : case       ↦ the SET of admissible observations, one per order of the top-level
                                 candidate list (it comes out of a HashSet), joined by ` || `
   drv_c09 oracle : case | obs ↦ `ok <tags>` / `fail <clause>`   clauses: goal-false-after (i),
-                                not-reachable (ii), not-restored / leaked-frames (iii), incomplete (iv)
+                                not-reachable (ii), not-restored / leaked-frames (iii), incomplete (iv),
+                                incomplete-interference (iv-b)
 -/
 open Proto C09
 
@@ -213,6 +214,8 @@ def oracleLine (line : String) : String :=
           else if !restored before after depth provable then "fail not-restored"
           else if c.strategy == .dfs && !complete c.kb before c.maxDepth c.goal provable then
             s!"fail incomplete ms{if c.maxSol > 1 then "N" else "1"} {if hasIntLiteral c.kb then "int-literal" else "plain"}"
+          else if c.strategy == .dfs && !completeInconsistent nFields c.kb before c.maxDepth c.goal provable then
+            "fail incomplete-interference"
           else
             let d0 := dataOf before
             let horn := completeApplies c.kb before c.goal
@@ -224,6 +227,7 @@ def oracleLine (line : String) : String :=
               ++ (if horn then ["horn"] else ["general"])
               ++ (match lvl with | some k => [s!"level{k}"] | none => if horn then ["underivable"] else [])
               ++ (if horn && derivableIn c.kb d0 c.maxDepth c.goal && c.strategy == .dfs then ["complete_clause_applied"] else [])
+              ++ (if c.strategy == .dfs && interferenceClause nFields c.kb before c.maxDepth c.goal then ["interference_clause_applied"] else [])
               ++ (if reach == none then ["reach_fuel_out"] else [])
               ++ (if before != after then ["derived_facts"] else [])
               ++ (if rsz > 1 then ["rules_fireable"] else [])
